@@ -5,19 +5,26 @@ from vlib import *
 from storage import *
 from net import *
 from ws_e2e import *
+from http_e2e import make_cert
 import ws_storage as W
 
 V4_IPS = ["127.0.0.2", "127.0.0.3", "127.0.0.4", "127.0.0.5"]
 
 
-def scenario(ctx, trace, run_id, sw, ww, rnd, nops, max_offers=3, rst_closes=True):
+def scenario(ctx, trace, run_id, sw, ww, rnd, nops, max_offers=3, rst_closes=True, tls=False):
+    import ws_e2e
     port = free_port(socket.SOCK_STREAM)
     cfg = ws_config(port, sw, ww, max_offers=max_offers, max_scrape=255, addr="[::]")
     # configurations with several socket workers also answer plain-HTTP health checks on the same port
     # (the connection task peeks at the first bytes): the WebSocket behaviour must not depend on it
-    health = sw > 1
+    # (the tracker does not combine health checks with TLS)
+    health = sw > 1 and not tls
     cfg["network"]["enable_http_health_checks"] = health
-    t = Tracker(ctx, "ws", cfg, "c17_%d_%d" % (sw, ww))
+    if tls:
+        cert = make_cert(ctx, "c17_%d" % run_id)
+        cfg["network"].update({"enable_tls": True, "tls_certificate_path": cert[0], "tls_private_key_path": cert[1]})
+    t = Tracker(ctx, "ws", cfg, "c17_%d_%d%s" % (sw, ww, "_tls" if tls else ""))
+    ws_e2e.USE_TLS = tls
     clients = {}
     stats = {"ops": 0, "frames": 0, "closes": 0, "health_probes": 0, "health_ok": 0}
 
@@ -114,6 +121,7 @@ def scenario(ctx, trace, run_id, sw, ww, rnd, nops, max_offers=3, rst_closes=Tru
         if not t.alive():
             trace.append({"ev": "tracker_died", "stderr": t.stderr()[-600:]})
     finally:
+        ws_e2e.USE_TLS = False
         for c in clients.values():
             c.close()
         t.stop()
@@ -226,6 +234,80 @@ def idle_close_scenario(ctx, trace, run_id):
         t.stop()
 
 
+def tls_update_scenario(ctx, trace, run_id):
+    """A third way in which the tracker itself closes connections: after a successful TLS certificate update
+    (SIGUSR1) connections accepted under the previous certificate are closed once
+    close_after_tls_update_grace_period has passed (counted from the next connection cleaning).  Until then they
+    keep working; afterwards their peers must be gone; connections accepted under the new certificate stay."""
+    import signal
+    import ws_e2e
+    port = free_port(socket.SOCK_STREAM)
+    cfg = ws_config(port, 2, 2, addr="[::]")
+    c1 = make_cert(ctx, "c17_tlsupd_a", cn="first")
+    c2 = make_cert(ctx, "c17_tlsupd_b", cn="second")
+    cfg["network"].update({"enable_tls": True, "tls_certificate_path": c1[0], "tls_private_key_path": c1[1]})
+    cfg["cleaning"]["connection_cleaning_interval"] = 1
+    cfg["cleaning"]["close_after_tls_update_grace_period"] = 2
+    t = Tracker(ctx, "ws", cfg, "c17_tlsupd")
+    cls = []
+    info = {}
+    ws_e2e.USE_TLS = True
+    try:
+        tcp_wait_ready(("127.0.0.1", port), tracker=t)
+        trace.append({"ev": "reset", "run": run_id, "tracker": "ws", "max_offers": 10, "max_scrape": 255,
+                      "max_peer_age": 3600, "max_offer_age": 3600, "mode": "off", "dumps": False,
+                      "scenario": "tls_update_close"})
+        a = WsClient("A", "127.0.0.2", ("127.0.0.1", port))
+        cls.append(a)
+        info["cert_seen_by_A_is_first"] = a.cert_sha == c1[2]
+        for h, left in ((1, 0), (2, 1)):
+            a.send_text(announce_msg(h, 1, "started", left, [], []))
+            got = settle([a], 0.15, sender=a)
+            trace.append({"ev": "announce", "c": ["A", 0], "fam": 4, "h": h, "pid": 1, "event": "started",
+                          "left": left, "offers": [], "answer": [], "now": 0, "refused": False,
+                          "out": [abstract_frame(m, n) for n, m in got]})
+        # replace certificate and key (each file atomically), then ask for the reload
+        for src, dst in ((c2[0], c1[0]), (c2[1], c1[1])):
+            tmp = dst + ".new"
+            shutil.copy(src, tmp)
+            os.rename(tmp, dst)
+        t.signal(signal.SIGUSR1)
+        time.sleep(0.5)
+        b = WsClient("B", "127.0.0.3", ("127.0.0.1", port))
+        cls.append(b)
+        info["cert_seen_by_B_is_second"] = b.cert_sha == c2[2]
+        # inside the grace period the old connection still works: it is re-announced as long as it is open
+        a.pump()
+        if not a.closed:
+            a.send_text(announce_msg(2, 1, "completed", 0, [], []))
+            got = settle([a, b], 0.15, sender=a)
+            if not a.closed or got:
+                trace.append({"ev": "announce", "c": ["A", 0], "fam": 4, "h": 2, "pid": 1, "event": "completed",
+                              "left": 0, "offers": [], "answer": [], "now": 0, "refused": False,
+                              "out": [abstract_frame(m, n) for n, m in got]})
+                info["old_connection_served_in_grace_period"] = bool(got)
+        t_end = time.monotonic() + 12.0
+        while not a.closed and time.monotonic() < t_end:
+            a.pump()
+            b.pump()
+            time.sleep(0.1)
+        info["old_connection_closed_by_tracker"] = a.closed
+        if a.closed:
+            trace.append({"ev": "close", "c": ["A", 0], "fam": 4, "closed_by": "tracker (TLS update grace period over)"})
+            time.sleep(0.4)
+        # the connection accepted under the new certificate is still served - and sees what is stored now
+        b.send_text(scrape_msg([1, 2]))
+        got = settle([b], 0.3, sender=b)
+        trace.append({"ev": "scrape", "c": ["B", 0], "fam": 4, "hs": [1, 2], "out": [abstract_frame(m, n) for n, m in got]})
+        info["new_connection_open_afterwards"] = not b.closed
+    finally:
+        ws_e2e.USE_TLS = False
+        for c in cls:
+            c.close()
+        t.stop()
+    return info
+
+
 def classify(ev, prefix, last_state):
     sig = {"tracker": "ws", "part": "server"}
     for e in prefix[:1]:
@@ -319,6 +401,12 @@ def run(ctx):
     second_pid_scenario(ctx, trace, 901)
     second_pid_scenario(ctx, trace, 903, second_event="stopped")
     idle_close_scenario(ctx, trace, 902)
+    # over TLS: the general scenario on one configuration, and the close-after-certificate-update path
+    st = scenario(ctx, trace, 50, 2, 2, rnd, 60 if ctx.quick() else 160, tls=True)
+    for x in total:
+        total[x] += st[x]
+    tls_info = tls_update_scenario(ctx, trace, 904)
+    ctx.coverage["tls_update_scenario"] = tls_info
     tp = ctx.path("ws_server.ndjson")
     with open(tp, "w") as f:
         for e in trace:
